@@ -325,15 +325,30 @@ def run_real_history(model, hist, loopkind):
         done = world.objs.get("done")
         if done is not None:
             done.set()
-        try:
-            await asyncio.wait_for(prog_task, 5)
-        except BaseException:  # noqa: BLE001
-            pass
+        # bounded teardown: the actors may be stuck behind a shielded re-acquire of a lock that an
+        # idle actor still holds (accepted on the virtual loop too); never wait for them for ever
+        for _ in range(200):
+            if prog_task.done():
+                break
+            await asyncio.sleep(0)
+        for _ in range(20):
+            if prog_task.done():
+                break
+            for t in asyncio.all_tasks():
+                if t is not me and not t.done():
+                    t.cancel()
+            for _ in range(20):
+                await asyncio.sleep(0)
 
+    _arm_watchdog()
     try:
         anyio.run(main, backend_options={"loop_factory": factory})
+    except Hang:
+        result["stuck"] = True
     except BaseException:  # noqa: BLE001
         pass
+    finally:
+        _disarm_watchdog()
     ts = getattr(_aio, "_task_states", None)
     for t in _state["tasks"]:
         asyncio._unregister_task(t)
